@@ -6,6 +6,7 @@ of the correspondence check compares amount and unit before and after and
 asserts that no portion is the receiver.
 -/
 import QuantityModel.Proofs.Allocate
+import QuantityModel.Proofs.Quantity
 namespace QM.Props.C06
 open QM
 
@@ -265,5 +266,35 @@ dispersal (the example of a mis-sorted dispersal loop): conserved, remainder 0,
 every portion within one quantum of its share. -/
 example : allocate .ROUND_HALF_EVEN (777 / 100) (some (1 / 100)) [1, 1, 1, 1, 7] true =
     .ok ([71 / 100, 71 / 100, 71 / 100, 70 / 100, 494 / 100], 0) := by decide +kernel
+
+/-! ### the level of quantities (`allocateQty`, executed by the driver) -/
+
+section Qty
+open QM.QState
+variable {s : QState}
+
+/-- **`Quantity.allocate` conserves the total**, for number and quantity ratios
+alike: portions plus remainder equal the original amount exactly (the portions
+are returned in the quantity's own unit and type: `allocateQty` builds amounts
+for `a.unit`) -/
+theorem allocate_conserves (d : Rounding) (a : Qty) (ratios : List Ratio) (disp : Bool)
+    (ps : List ℚ) (rem : ℚ) (h : s.allocateQty d a ratios disp = .ok (ps, rem)) :
+    ps.sum + rem = a.amount ∧ ps.length = ratios.length := by
+  have := conservation d a.amount _ _ disp ps rem h
+  simpa using this
+
+/-- a quantity ratio in a unit of scale `k` of a type with reference unit counts
+with its reference value `k · amount`: ratios of one type in DIFFERENT units
+are compared by what they are worth (1 kg and 500 g: 2 to 1) -/
+theorem quantity_ratio_counts_with_reference_value (x : Qty) (k : ℚ)
+    (href : (s.reg.cls (s.reg.unitCls x.unit)).refUnit.isSome = true)
+    (hk : (s.reg.unit x.unit).equiv = some k) :
+    s.ratioValue (.qty x) = k * x.amount := by
+  unfold QState.ratioValue QState.refValue
+  simp [href, hk]
+
+theorem number_ratio_counts_as_itself (r : ℚ) : s.ratioValue (.num r) = r := rfl
+
+end Qty
 
 end QM.Props.C06
